@@ -833,7 +833,12 @@ class AsyncFIXConnection:
             is_valid_msg_num = await self._check_seqnum_gaps(msg_seq_num)
 
             if msg.msg_type == FMsg.RESENDREQUEST:
-                await self._process_resend(msg)
+                try:
+                    await self._process_resend(msg)
+                finally:
+                    if self._connection_state == ConnectionState.RESENDREQ_HANDLING:
+                        # the request could not be served: do not stay in HANDLING for ever
+                        await self._state_set(ConnectionState.ACTIVE)
             elif msg.msg_type == FMsg.SEQUENCERESET:
                 pass
             elif msg.msg_type == FMsg.LOGON:
